@@ -9,3 +9,4 @@ import Stingray.Props.C18
 import Stingray.Props.C04
 import Stingray.Props.C01
 import Stingray.Props.C06
+import Stingray.Props.C10
